@@ -18,8 +18,8 @@ def describe(tier):
         "rule": "for every C10 input: bytes written by IndxIO.save == bytes of an independent encoder written from the class docstring; the "
         "independent decoder recovers the input from the saved bytes; IndxIO.load recovers the input from independently encoded bytes for every "
         "index word size {1,2,4,8} >= needed and every row-id word size {1,2,4,8} the values permit (and both header conventions for the "
-        "dimension byte of an entry-less file). Saving with a 1-/2-/8-byte row-id dtype (entry lengths around 255/256 and 65535/65536): the library may refuse, but a file it writes must decode to the input. Narrow row-id words: independently encoded files with 1- and 2-byte row-id words whose total row-id count exceeds 255 / 65535 (%r). Size field: sparse stand-in arrays (len/dtype/tofile=seek) with row-id totals %r and %r: the 8-byte "
-        "size word must equal final file position - 16 and save must not raise. Non-trivial as in C10, or an alternative word size was loaded." % (NARROW, BIG_SINGLE, BIG_MULTI),
+        "dimension byte of an entry-less file). Saving with a 1-/2-/8-byte row-id dtype (entry lengths around 255/256 and 65535/65536): the library may refuse, but a file it writes must decode to the input. Narrow row-id words: independently encoded files with 1- and 2-byte row-id words whose total row-id count exceeds 255 / 65535 (%r). Entries of very different lengths in one file (every ordered pair of lengths from %r, and short/long/short, long/empty/short, short/long/long triples). Size field: sparse stand-in arrays (len/dtype/tofile=seek) with row-id totals %r and %r: the 8-byte "
+        "size word must equal final file position - 16 and save must not raise. Non-trivial as in C10, or an alternative word size was loaded." % (NARROW, indx.MIXED_LENGTHS, BIG_SINGLE, BIG_MULTI),
         "bounds": {"row_id_totals": [str(x) for x in BIG_SINGLE] + [str(sum(x)) for x in BIG_MULTI]},
         "exhaustive": True,
         "assumptions": ["the class docstring of IndxIO is the format specification", "for totals >= 2^30 only the size arithmetic is exercised (no row-id data is materialised)"],
@@ -33,7 +33,7 @@ NARROW_SAVE = [(1, [3, 0, 5]), (1, [255]), (1, [256]), (1, [255, 255]), (1, [256
 
 
 def blocks(tier):
-    return indx.family_blocks(tier) + [("bigsize", {"tier": tier})] + [("narrow", {"tier": tier, "i": i}) for i in range(len(NARROW))] + [("narrow-save", {"tier": tier, "i": i}) for i in range(len(NARROW_SAVE))]
+    return indx.family_blocks(tier) + [("mixed", {"i": i}) for i in range(len(indx.mixed_cases()))] + [("bigsize", {"tier": tier})] + [("narrow", {"tier": tier, "i": i}) for i in range(len(NARROW))] + [("narrow-save", {"tier": tier, "i": i}) for i in range(len(NARROW_SAVE))]
 
 
 def check_narrow_save(rw, lengths, acc):
@@ -79,8 +79,9 @@ def check_narrow(rw, lengths, acc):
         acc.violation("load-independent:differs", case, msg)
 
 
-def check_case(keys, arrays, common, acc):
-    case = {"keys": keys, "arrays": arrays, "common": common}
+def check_case(keys, arrays, common, acc, case=None, alt_words=True):
+    short = case is not None
+    case = case or {"keys": keys, "arrays": arrays, "common": common}
     try:
         blob = indx.lib_save(keys, arrays, common)
     except Exception as e:  # noqa
@@ -88,7 +89,11 @@ def check_case(keys, arrays, common, acc):
         return 0
     mine = indx.encode(keys, arrays, common)
     if blob != mine:
-        acc.violation("bytes:differ", case, "library %s != documented layout %s" % (blob.hex(), mine.hex()))
+        if short:
+            d = next((i for i in range(min(len(blob), len(mine))) if blob[i] != mine[i]), min(len(blob), len(mine)))
+            acc.violation("bytes:differ", case, "library file (%d bytes) != documented layout (%d bytes), first difference at byte %d: %s vs %s" % (len(blob), len(mine), d, blob[d:d + 16].hex(), mine[d:d + 16].hex()))
+        else:
+            acc.violation("bytes:differ", case, "library %s != documented layout %s" % (blob.hex(), mine.hex()))
         return 0
     try:
         dk, da, dc, iw, rw, size = indx.decode(blob)
@@ -96,7 +101,7 @@ def check_case(keys, arrays, common, acc):
         acc.violation("bytes:undecodable", case, repr(e))
         return 0
     if (dk, da, dc) != ([tuple(k) for k in keys], [list(a) for a in arrays], common) and keys:
-        acc.violation("bytes:decode-differs", case, "independent decoder got %r" % ((dk, da, dc),))
+        acc.violation("bytes:decode-differs", case, ("independent decoder got %r" % ((dk, da, dc),))[:600])
     if not keys and (da, dc) != ([], common):
         acc.violation("bytes:decode-differs", case, "independent decoder got %r" % ((dk, da, dc),))
     # loader on independently encoded bytes, all admissible word sizes
@@ -105,10 +110,10 @@ def check_case(keys, arrays, common, acc):
     need_r = indx.narrowest(mr)
     n_alt = 0
     for iw in (1, 2, 4, 8):
-        if iw < need_i:
+        if iw < need_i or (not alt_words and iw not in (need_i, 8)):
             continue
         for rw in (1, 2, 4, 8):
-            if rw < need_r:
+            if rw < need_r or (not alt_words and rw not in (need_r, 8)):
                 continue
             for dims in ((None,) if keys else (0, 1, 3)):
                 b2 = indx.encode(keys, arrays, common, index_word=iw, rowid_word=rw, dims=dims)
@@ -120,7 +125,7 @@ def check_case(keys, arrays, common, acc):
                     continue
                 msg = indx.check_loaded(out, common_l, kinds, keys, arrays, common)
                 if msg:
-                    acc.violation("load-independent:differs", c2, msg)
+                    acc.violation("load-independent:differs", c2, msg[:600])
                 n_alt += 1
     return n_alt
 
@@ -180,6 +185,12 @@ def run_block(family, p, acc):
         check_narrow(rw, lengths, acc)
         acc.case(("narrow", rw, tuple(lengths)), nontrivial=True, outcome=("narrow", rw), sample={"rowid_word": rw, "row_id_lengths": lengths})
         return
+    if family == "mixed":
+        lengths = indx.mixed_cases()[p["i"]]
+        n_alt = check_case(indx.mixed_keys(lengths), indx.mixed_arrays(lengths), 3, acc, case={"mixed_lengths": lengths}, alt_words=False)
+        acc.count("independent_files_loaded", n_alt)
+        acc.case(("mixed", tuple(lengths)), nontrivial=True, outcome=("mixed", len(lengths)), sample={"entry_lengths": lengths})
+        return
     if family == "bigsize":
         for n in BIG_SINGLE:
             check_big([n], acc)
@@ -201,7 +212,10 @@ def replay(case, site=None):
     from ..core import Acc
 
     acc = Acc(ID, [], stop_at_first=False)
-    if "save_rowid_word" in case:
+    if "mixed_lengths" in case:
+        lengths = case["mixed_lengths"]
+        check_case(indx.mixed_keys(lengths), indx.mixed_arrays(lengths), 3, acc, case={"mixed_lengths": lengths}, alt_words=False)
+    elif "save_rowid_word" in case:
         check_narrow_save(case["save_rowid_word"], case["lengths"], acc)
     elif "rowid_word" in case and "lengths" in case:
         check_narrow(case["rowid_word"], case["lengths"], acc)
